@@ -102,12 +102,22 @@ def delete_alphabet(ctx, keys):
 
 
 def explorer(fam, kind, impl, sizes, n, variant, prop, alphabet='slim', check_ops=False,
-             max_states=None, subclass=False, thin=None):
+             max_states=None, subclass=False, thin=None, big=None):
     ctx = O.Ctx(fam, kind, impl, subclass_sizes=sizes if subclass else None)
     keys, grid = F.universe(fam, n, variant)
     vals = F.values(fam)
     prefix = ()
-    if thin:
+    max_depth = None
+    if big:
+        # 'big state': scripted build (order `big`) of two thirds of an n-key universe at the node sizes
+        # given - `sizes` None = the family's DEFAULT sizes -, then every single operation of the slim
+        # alphabet (real inserts of the absent third, replacements, deletions, failing deletions) and all
+        # monitors in every successor; depth 1 only (2^n subsets are out of reach for n > 13).
+        present = [k for i, k in enumerate(keys) if i % 3 != 1]
+        prefix = build_prefix(ctx, present, vals, big)
+        alpha = slim_alphabet(ctx, keys, vals)
+        max_depth = 1
+    elif thin:
         # 'thinning space': scripted build of all n keys in the given order, then BFS over
         # deletions only (every subset of keys removed, in every order that changes the shape)
         prefix = build_prefix(ctx, keys, vals, thin)
@@ -118,9 +128,11 @@ def explorer(fam, kind, impl, sizes, n, variant, prop, alphabet='slim', check_op
         alpha = full_alphabet(ctx, keys, grid, vals)
     if sizes and not subclass:
         F.set_sizes(fam, *sizes)
+    elif big:
+        F.reset_sizes(fam)
     ex = Explorer(ctx, alpha, sizes=sizes, prop=prop, check_ops=check_ops,
-                  max_states=max_states, prefix=prefix,
-                  base_case=dict(n=n, variant=variant, thin=thin))
+                  max_states=max_states, prefix=prefix, max_depth=max_depth,
+                  base_case=dict(n=n, variant=variant, thin=thin, big=big))
     ex.keys, ex.grid, ex.vals = keys, grid, vals
     return ex
 
@@ -207,4 +219,36 @@ def leaf_configs(tier, n_deep=5, n_shallow=4):
                 for var in F.variants(fam):
                     out.append((fam, kind, impl, None, n_deep if fam in deep else n_shallow,
                                 var, w))
+    return out
+
+
+# --------------------------------------------------------------------------
+# wide nodes (session 5): the standard spaces use node sizes 2..4, so no node ever holds more than
+# 7 entries and a slip in the binary searches (BUCKET_SEARCH / BTREE_SEARCH, bisect in _base.py), in
+# a split midpoint or in a memmove length that needs a *wide* node to show is out of their reach.
+# These configurations put 8..9 children under one interior node (leaf size 2, interior size 8),
+# up to 8 keys into one leaf of a two-level tree (8/2), and both at once (6/6).
+WIDE_FAMS_QUICK = {'c': ('OO', 'LQ', 'fs'), 'py': ('OO', 'IF')}
+
+
+def wide_configs(tier, bfs=True, shrink=0):
+    """(fam, kind, impl, sizes, n, variant, thin, weight); thin=None means a full BFS.
+    shrink: take that many keys fewer (checks whose monitors are expensive per state)."""
+    out = []
+    for impl in F.IMPLS:
+        fams = WIDE_FAMS_QUICK[impl] if tier == 'quick' else F.FAMILIES
+        w = 3 if impl == 'py' else 1
+        for fam in fams:
+            for kind in F.TREE_KINDS:
+                bt = kind == 'BTree'
+                out.append((fam, kind, impl, (2, 8), 10 - shrink, 'centred', 'asc' if bt else 'desc', 2 * w))
+                out.append((fam, kind, impl, (8, 2), (11 if tier == 'quick' else 12) - shrink, 'centred',
+                            'asc' if not bt else 'mid', 5 * w))
+                if tier != 'quick' or bt:
+                    out.append((fam, kind, impl, (6, 6), (11 if tier == 'quick' else 13) - shrink, 'centred',
+                                'mid' if bt else 'asc', 5 * w))
+                if bfs:
+                    out.append((fam, kind, impl, (2, 8), 7, 'centred', None, 3 * w))
+                    if tier != 'quick' or (impl == 'c' and bt):
+                        out.append((fam, kind, impl, (8, 2), 9, 'centred', None, 11 * w))
     return out
